@@ -1,5 +1,6 @@
 """Generation of whole-API cases (package + options) shared by several properties."""
 import random
+import re
 
 import gen_stylemap as GS
 from gen_docx import DocGen, ascii_upper
@@ -15,10 +16,28 @@ def pools_of(g):
     }
 
 
+_QUOTED = re.compile(r"'(?:\\.|[^'\\])*'")
+
+
+def plain_paths_only(text):
+    """drop the lines whose HTML path writes a tag / class / attribute NAME through a backslash escape: only so can a
+    name that is not a plain name be expressed (junk mutation produces such lines now and then), and the properties
+    that look at the HTML structure quantify over plain names"""
+    keep = []
+    for line in text.split("\n"):
+        head, sep, path = line.partition("=>")
+        if sep and "\\" in _QUOTED.sub("", path):
+            continue
+        keep.append(line)
+    return "\n".join(keep)
+
+
 def safe_style_map(rng, pools, **kw):
     """a style map whose style-name strings upper-case identically in Python and in the model"""
     for _ in range(20):
         t = GS.style_map_text(rng, pools, **kw)
+        if kw.get("hid") == 0:
+            t = plain_paths_only(t)
         if t.upper() == ascii_upper(t) or all(ord(c) < 128 or not c.isalpha() for c in t):
             return t
     return ""
